@@ -38,6 +38,8 @@ SPECS = {
     "shared_rule_retry": "<start> ::= <StdOut:a> <retry>{0,2} <resp> <StdOut:d>\n<retry> ::= <resp> <StdOut:e>\n<resp> ::= <StdIn:b> | <StdIn:c>\n",
     "shared_rule_option_then_mandatory": "<start> ::= <StdOut:a> <x>? <x> <StdOut:d>\n<x> ::= <StdIn:b> <StdOut:c>?\n",
     "shared_rule_in_branches": "<start> ::= <StdOut:a> (<x> <StdOut:d> | <StdOut:c> <x> <StdOut:e>) <x>?\n<x> ::= <StdIn:b>\n",
+    # a history whose TYPE sequence is a full interaction under other parties (completeness must respect the parties)
+    "same_type_complete_under_other_party": "<start> ::= <StdOut:a> (<StdOut:b> | <StdIn:b> <StdOut:c>)\n",
     "same_type_other_direction": "<start> ::= <StdOut:a> (<StdOut:b> <StdIn:c> | <StdIn:b> <StdOut:c>) <StdOut:d>\n",
 }
 PARTY_DEFS = '''
@@ -53,6 +55,30 @@ class Server(FandangoParty):
     def __init__(self):
         super().__init__(connection_mode=ConnectionMode.EXTERNAL)
 '''
+
+
+# three-party specs that are SLICED to the messages sent by a subset of the parties when they are loaded (`parties=[...]`):
+# the expected interactions are the full interactions with the other parties' messages dropped (projection computed here)
+THREE_PARTIES = "".join(f"""
+class {n}(FandangoParty):
+    def __init__(self):
+        super().__init__(connection_mode=ConnectionMode.OPEN)
+
+    def send(self, message, recipient):
+        pass
+""" for n in ("P", "Q", "R"))
+SLICED = {
+    "relay": ("<start> ::= <P:Q:a> <Q:R:b> <R:Q:c> <Q:P:d> <s>{1,2} <P:Q:e>\n<s> ::= <P:Q:f> <Q:R:g> <R:Q:b> <Q:P:c> <P:Q:d>?\n", [("P",), ("Q",), ("P", "Q")]),
+    "adjacent_foreign": ("<start> ::= <P:Q:a> (<R:Q:b> <R:Q:c> <Q:P:d>)+ <P:Q:e>\n", [("P",), ("P", "Q")]),
+}
+
+
+def load_sliced(name, keep):
+    from fandango.language.parse.parse import parse
+    text = SLICED[name][0] + MSGS + THREE_PARTIES
+    full, _ = parse(text, use_stdlib=False, use_cache=False)
+    sliced, _ = parse(text, use_stdlib=False, use_cache=False, parties=list(keep))
+    return full, sliced
 
 
 def load(name):
@@ -208,11 +234,51 @@ def run(tier="quick", seed=0, pid="C19"):
                                        "script": replay_script(name, h)})
             if len(samples) < 8 and len(h) == 2:
                 samples.append({"spec": name, "history": [m[2] for m in h], "follow": sorted(m[2] for m in want_follow), "complete": want_complete})
+    # ---- sliced specs -------------------------------------------------------------------------------------------
+    for name, (_, slices) in SLICED.items():
+        for keep in slices:
+            try:
+                full, sliced = load_sliced(name, keep)
+            except Exception as e:
+                undecided.append(f"sliced spec {name}/{keep} does not load: {type(e).__name__}: {e}")
+                continue
+            full_words = msg_language(full, depth + 6)
+            words = set()
+            for w in full_words:
+                words.add(tuple(m for m in w if m[0] in keep)[: depth + 1])
+            histories = {()}
+            for w in words:
+                for k in range(1, min(len(w), depth) + 1):
+                    histories.add(w[:k])
+            tag = f"{name}/{'+'.join(keep)}"
+            for h in sorted(histories, key=lambda x: (len(x), repr(x))):
+                want_follow, want_complete = follow_and_complete(words, h, depth + 1)
+                try:
+                    trees = history_tree(sliced, h)
+                except Exception:
+                    trees = []
+                for t in trees[:2]:
+                    evaluations += 1
+                    distinct.add((tag, h))
+                    try:
+                        got_follow, got_complete = predicted(sliced, t)
+                    except Exception as e:
+                        if (tag, "crash") not in reported:
+                            reported.add((tag, "crash"))
+                            violations.append({"name": f"bounded:forecast_is_follow_set:{name}", "witness": f"spec={tag};kind=predict_raises",
+                                               "detail": f"sliced to {keep}, history {h}: predict raised {type(e).__name__}: {e}", "script": replay_sliced_script(name, keep, h)})
+                        continue
+                    if len(h) < depth and got_follow != want_follow and (tag, "follow") not in reported:
+                        reported.add((tag, "follow"))
+                        violations.append({"name": f"bounded:forecast_is_follow_set:{name}", "witness": f"spec={tag};kind=options_differ_from_follow_set",
+                                           "detail": f"sliced to {keep}, history {[m[2] for m in h]}: offered {sorted(m[2] for m in got_follow)}, the sliced protocol allows {sorted(m[2] for m in want_follow)}",
+                                           "script": replay_sliced_script(name, keep, h)})
     return {
         "evaluations": evaluations, "distinct_nontrivial": len([d for d in distinct if d[1]]),
         "rule": (f"{len(SPECS)} protocol specs (alternatives, options, * + {{n}} {{n,m}}, nesting, recursion, two parties with recipients) x every "
                  f"message history of length <= {depth} that is a prefix of an interaction, recorded as a tree by an INCOMPLETE parse; "
-                 "distinct = distinct (spec, history); non-trivial = non-empty history"),
+                 "plus 2 three-party specs sliced to subsets of the senders (`parties=[...]`), forecast on the sliced grammar against the projection "
+                 "of the unsliced interactions computed here; distinct = distinct (spec, history); non-trivial = non-empty history"),
         "bound": f"history depth {depth}", "samples": samples, "violations": violations, "undecided": undecided,
         "wall_s": round(time.time() - t0, 1),
     }
@@ -228,6 +294,36 @@ os.environ.setdefault("VERIF_REPO", "/repo")
 from bounded import c19
 sys.exit(c19.replay({name!r}, {h!r}))
 '''
+
+
+def replay_sliced_script(name, keep, h):
+    root = os.path.dirname(os.path.dirname(os.path.abspath(__file__)))
+    return f'''#!/usr/bin/env python3
+"""C19 witness: spec {name!r} sliced to {keep!r}, history {[m[2] for m in h]!r}.  Exit 1 = reproduced."""
+import os, sys
+sys.path.insert(0, {root!r})
+os.environ.setdefault("VERIF_REPO", "/repo")
+from bounded import c19
+sys.exit(c19.replay_sliced({name!r}, {tuple(keep)!r}, {h!r}))
+'''
+
+
+def replay_sliced(name, keep, h):
+    full, sliced = load_sliced(name, keep)
+    depth = len(h) + 2
+    words = set()
+    for w in msg_language(full, depth + 8):
+        words.add(tuple(m for m in w if m[0] in keep)[: depth + 1])
+    want_follow, _ = follow_and_complete(words, tuple(h), depth + 1)
+    print("spec (sliced to", keep, "):\n" + SLICED[name][0])
+    bad = False
+    for t in history_tree(sliced, tuple(h))[:2]:
+        got_follow, _ = predicted(sliced, t)
+        print("history", [m[2] for m in h], "offered", sorted(m[2] for m in got_follow), "sliced protocol allows", sorted(m[2] for m in want_follow))
+        if got_follow != want_follow:
+            bad = True
+    print("VIOLATION reproduced" if bad else "not reproduced")
+    return 1 if bad else 0
 
 
 def replay(name, h):
